@@ -81,7 +81,12 @@ theorem textOf_ascii (ds : List Nat) : textOf (ds.map asciiRune) = ds.map UInt8.
   | cons d ds ih => simp only [textOf, List.map_cons, List.flatMap_cons, asciiRune_bytes] at ih ⊢; rw [ih]; rfl
 
 theorem upperCodes_ascii (ds : List Nat) : upperCodes (ds.map asciiRune) = ds.map asciiUpper := by
-  simp [upperCodes]
+  induction ds with
+  | nil => rfl
+  | cons d ds ih =>
+    simp only [upperCodes, List.map_cons, List.map_map] at ih ⊢
+    rw [ih]
+    rfl
 
 theorem scanTok_word (f : Nat) (r : Rune) (w X : Input) (hr : isIdentRune r true = true)
     (hw : ∀ r ∈ w, isIdentRune r false = true) (hX : HeadP (fun r => !isIdentRune r false) X = true)
